@@ -762,7 +762,7 @@ func c03R7(p *core.Prog, r *core.Report, rule string) {
 	lab := labeler{}
 	core.Calls(fn, func(c ssa.CallInstruction) {
 		cal := core.Callee(c)
-		if cal == nil || !core.IsModMethod(cal, ".", "RegClient", "BlobHead") {
+		if cal == nil || !core.IsClientOp(cal, "BlobHead") {
 			return
 		}
 		if !core.HasOrigin(core.Origins(core.CallArg(c, 2), core.SliceOpts{}), func(o core.Origin) bool { return o.Kind == core.OParam && o.Param == tgt }) {
